@@ -23,8 +23,10 @@ VARIABLES l,        \* cursor
           owed,     \* pending obligations [kind, fnk, idx, v4, due]
           inbox,    \* deliver events since the last iteration
           cmds,     \* call events since the last iteration
-          viol, hits
-vars == <<l, scen, myhost, ifs, reg, ann, probes, noisy, owed, inbox, cmds, viol, hits>>
+          ipint,    \* interface-check interval in force (ms, 0 = disabled)
+          viol, hits,
+          streak    \* consecutive idle iterations whose requested wake-up is at most 1 ms ahead (C12.nospin)
+vars == <<streak, l, scen, myhost, ifs, reg, ann, probes, noisy, owed, inbox, cmds, ipint, viol, hits>>
 
 Ev == Rec[l]
 T  == Ev.t
@@ -108,6 +110,10 @@ ApplyCmd(s, c) ==
          [s EXCEPT !.byes = s.byes \cup UNION {GoodbyesFor(s.reg[k], s.ann) : k \in Dom(s.reg)},
                    !.unreg = s.unreg \cup Dom(s.reg),
                    !.reg = <<>>, !.ann = <<>>, !.probes = <<>>, !.owed = {}, !.down = TRUE]
+    [] c.fn = "set_ip_check_interval" /\ c.res = "ok" ->
+         [s EXCEPT !.ipint = IF c.args.secs = 0 THEN 0
+                             ELSE IF c.args.secs > 2000000 THEN 2000000000
+                             ELSE IF s.ipint > 1000 * c.args.secs THEN s.ipint ELSE 1000 * c.args.secs]
     [] OTHER -> s
 
 RECURSIVE Fold(_, _)
@@ -173,10 +179,16 @@ HitsQuery(Q) ==
      \cup (IF Q.sport # 5353 /\ mustAll # {} THEN {"C06.legacy-case"} ELSE {})
 
 (* ------------------------------- iteration ------------------------------ *)
+IdleNow == Len(Ev.sent) = 0 /\ Len(Ev.events) = 0 /\ Len(Ev.replies) = 0 /\ inbox = <<>> /\ cmds = <<>>
+                 /\ Ev.wake >= 0 /\ Ev.wake <= T + 1
+SpinV == V("C12.nospin", ~(IdleNow /\ streak + 1 = 30),
+           <<"30 iterations in a row without work, each asking to be woken within 1 ms (timer at or before the current time)", T>>)
+
 Iter ==
   /\ Ev.e = "iter"
+  /\ streak' = IF IdleNow THEN streak + 1 ELSE 0
   /\ \E s \in {Fold([reg |-> reg, ann |-> ann, probes |-> probes, owed |-> owed, v |-> {}, byes |-> {},
-                     unreg |-> {}, down |-> FALSE], cmds)} :
+                     unreg |-> {}, down |-> FALSE, ipint |-> ipint], cmds)} :
      LET R2 == s.reg
          \* probes seen in this iteration
          probeNames(i) == {Pk(i).m.q[j].n.k : j \in {x \in 1..Len(Pk(i).m.q) : Pk(i).m.q[x].ty = "ANY"}}
@@ -247,8 +259,19 @@ Iter ==
                ELSE V("C06.unsolicited", (Queries = {}) => (QResp = {}), <<"response packets without a query">>)
          \* after unregister / shutdown: nothing more for those services in this iteration's announcements
          vQuiet == UNION {V("C09.quiet", annSvc(i) \notin s.unreg, <<"announced after unregister", annSvc(i)>>) : i \in Annc}
-     IN /\ viol' = viol \cup s.v \cup vProbe \cup vAnn \cup vBye \cup vOwed \cup vQ \cup vQuiet
-        /\ reg' = R2 /\ ann' = A2 /\ probes' = P2 /\ owed' = O2
+         \* C12: the requested wake-up covers the pending time-driven work of the responder side
+         quiet(k) == k \notin noisy \cup NoisyIn /\ k \in Dom(R2) /\ R2[k].hostk \notin noisy \cup NoisyIn
+         probeDue(o) == LET g == R2[o.fnk]
+                            since == SelectSeq(SeqOf(P2, <<o.fnk, o.idx>>), LAMBDA x : x >= g.at)
+                        IN IF ~g.probe THEN {} ELSE IF since = <<>> THEN {g.at + 250} ELSE {Last(since) + 250}
+         due == {d \in {o.due : o \in {x \in O2 : x.kind \in {"ann2", "bye2"} /\ (x.kind = "bye2" \/ quiet(x.fnk))}}
+                        \cup UNION {probeDue(o) : o \in {x \in O2 : x.kind = "announce" /\ quiet(x.fnk)}}
+                        \cup (IF s.ipint > 0 THEN {T + s.ipint} ELSE {}) : d > T}
+         vWake == IF due = {} \/ ~Ev.alive \/ s.down THEN {}
+                  ELSE V("C12.cover", Ev.wake >= 0 /\ Ev.wake <= (CHOOSE d \in due : \A e \in due : d <= e),
+                         <<"requested wake-up later than pending time-driven work", Ev.wake, CHOOSE d \in due : \A e \in due : d <= e, T>>)
+     IN /\ viol' = viol \cup SpinV \cup s.v \cup vProbe \cup vAnn \cup vBye \cup vOwed \cup vQ \cup vQuiet \cup vWake
+        /\ reg' = R2 /\ ann' = A2 /\ probes' = P2 /\ owed' = O2 /\ ipint' = s.ipint
         /\ hits' = hits \cup (IF Probe # {} THEN {"C07.probe"} ELSE {})
                         \cup (IF Annc # {} THEN {"C07.announce"} ELSE {})
                         \cup (IF Bye # {} THEN {"C09.goodbye"} ELSE {})
@@ -261,26 +284,27 @@ Iter ==
 
 Reset == /\ Ev.e = "reset"
          /\ scen' = Ev.scen.id /\ myhost' = 0 /\ ifs' = <<>> /\ reg' = <<>> /\ ann' = <<>> /\ probes' = <<>>
-         /\ noisy' = {} /\ owed' = {} /\ inbox' = <<>> /\ cmds' = <<>>
-         /\ UNCHANGED <<viol, hits>>
+         /\ noisy' = {} /\ owed' = {} /\ inbox' = <<>> /\ cmds' = <<>> /\ ipint' = 5000
+         /\ UNCHANGED <<viol, hits, streak>>
 Spawn == /\ Ev.e = "spawn"
          /\ myhost' = Ev.host + 1
          /\ ifs' = Rec[CHOOSE j \in 1..l : Rec[j].e = "reset" /\ \A m \in (j+1)..l : Rec[m].e # "reset"].hosts[Ev.host + 1]
-         /\ UNCHANGED <<scen, reg, ann, probes, noisy, owed, inbox, cmds, viol, hits>>
+         /\ UNCHANGED <<scen, reg, ann, probes, noisy, owed, inbox, cmds, ipint, viol, hits, streak>>
 IfsEv == /\ Ev.e = "ifs"
          /\ ifs' = IF Ev.host + 1 = myhost THEN Ev.ifs ELSE ifs
-         /\ UNCHANGED <<scen, myhost, reg, ann, probes, noisy, owed, inbox, cmds, viol, hits>>
+         /\ UNCHANGED <<scen, myhost, reg, ann, probes, noisy, owed, inbox, cmds, ipint, viol, hits, streak>>
 Call == /\ Ev.e = "call"
         /\ cmds' = Append(cmds, Ev)
-        /\ UNCHANGED <<scen, myhost, ifs, reg, ann, probes, noisy, owed, inbox, viol, hits>>
+        /\ UNCHANGED <<scen, myhost, ifs, reg, ann, probes, noisy, owed, inbox, ipint, viol, hits, streak>>
 Deliver == /\ Ev.e = "deliver"
            /\ inbox' = Append(inbox, Ev)
-           /\ UNCHANGED <<scen, myhost, ifs, reg, ann, probes, noisy, owed, cmds, viol, hits>>
+           /\ UNCHANGED <<scen, myhost, ifs, reg, ann, probes, noisy, owed, cmds, ipint, viol, hits, streak>>
 Skip == /\ Ev.e \in {"adv", "dead", "note"}
-        /\ UNCHANGED <<scen, myhost, ifs, reg, ann, probes, noisy, owed, inbox, cmds, viol, hits>>
+        /\ viol' = viol
+        /\ UNCHANGED <<scen, myhost, ifs, reg, ann, probes, noisy, owed, inbox, cmds, ipint, hits, streak>>
 
 Init == /\ l = 1 /\ scen = 0 /\ myhost = 0 /\ ifs = <<>> /\ reg = <<>> /\ ann = <<>> /\ probes = <<>>
-        /\ noisy = {} /\ owed = {} /\ inbox = <<>> /\ cmds = <<>> /\ viol = {} /\ hits = {}
+        /\ noisy = {} /\ owed = {} /\ inbox = <<>> /\ cmds = <<>> /\ ipint = 5000 /\ viol = {} /\ hits = {} /\ streak = 0
 Next == l <= Len(Rec) /\ l' = l + 1 /\ (Reset \/ Spawn \/ IfsEv \/ Call \/ Deliver \/ Skip \/ Iter)
 Spec == Init /\ [][Next]_vars
 
